@@ -497,13 +497,29 @@ fn release_order_body(which: u16) {
 }
 
 // @harness props=C03 tier=quick layer=L2
-// @harness funcs="Outbound::queue_release, ack_release, arm_replay, next_step"
-// @harness sym="(none: shape and completed exchange concrete; each of the 3 exchanges completed in turn)" bounds="3 exchanges awaiting PUBCOMP"
+// @harness funcs="Outbound::queue_release, ack_release (heapless::Vec::remove), arm_replay, next_step"
+// @harness sym="(none: shape and completed exchange concrete)" bounds="3 exchanges awaiting PUBCOMP; PUBCOMP for the first (one Vec::remove per harness: three in a row exhaust memory, 18 GB measured)"
 #[kani::proof]
 #[kani::unwind(6)]
-fn c03_release_order_preserved() {
+fn c03_release_order_preserved_0() {
     release_order_body(31);
+}
+
+// @harness props=C03 tier=quick layer=L2
+// @harness funcs="Outbound::queue_release, ack_release (heapless::Vec::remove), arm_replay, next_step"
+// @harness sym="(none: shape and completed exchange concrete)" bounds="3 exchanges awaiting PUBCOMP; PUBCOMP for the second (one Vec::remove per harness: three in a row exhaust memory, 18 GB measured)"
+#[kani::proof]
+#[kani::unwind(6)]
+fn c03_release_order_preserved_1() {
     release_order_body(32);
+}
+
+// @harness props=C03 tier=quick layer=L2
+// @harness funcs="Outbound::queue_release, ack_release (heapless::Vec::remove), arm_replay, next_step"
+// @harness sym="(none: shape and completed exchange concrete)" bounds="3 exchanges awaiting PUBCOMP; PUBCOMP for the third (one Vec::remove per harness: three in a row exhaust memory, 18 GB measured)"
+#[kani::proof]
+#[kani::unwind(6)]
+fn c03_release_order_preserved_2() {
     release_order_body(33);
 }
 
@@ -743,4 +759,91 @@ fn c14_pubrel_size_gate() {
         Err(_) => assert!(too_big),
     }
     kani::cover!(too_big);
+}
+
+// ---------------------------------------------------------------------------------------------
+// C01-O4: the first byte of a replayed packet must still be a legal fixed header
+// ---------------------------------------------------------------------------------------------
+// @harness props=C01,C05 tier=quick layer=L2
+// @harness funcs="Outbound::arm_replay, mark_retained_dup"
+// @harness sym="type/flags of the retained packet among PUBLISH QoS 1/2 (+/- retain), SUBSCRIBE, UNSUBSCRIBE" bounds="one retained packet"
+// @harness assumes="KNOWN FINDING F7 tagged"
+#[kani::proof]
+#[kani::unwind(4)]
+fn c01_replay_first_byte_is_legal() {
+    let mut tx = [0u8; 8];
+    let first: u8 = match kani::any::<u8>() % 6 {
+        0 => 0x32,
+        1 => 0x33,
+        2 => 0x34,
+        3 => 0x35,
+        4 => 0x82,
+        _ => 0xA2,
+    };
+    tx[0] = first;
+    let mut ob = Outbound::new(&mut tx);
+    ob.retain_packet(1, 0, 4).unwrap();
+    ob.retained[0].state = SendState::Sent;
+    ob.arm_replay();
+    let b = ob.buf[0];
+    assert!(b >> 4 == first >> 4 && b & 0x07 == first & 0x07, "C02/C17: replay changes the type, QoS or retain bits of a retained packet");
+    if first >> 4 == 3 {
+        assert!(b & 0x08 != 0, "C02: a retransmitted PUBLISH must carry DUP");
+    }
+    // modulo F7: whatever is replayed differs from the original in bit 3 only
+    assert!(b == first | 0x08, "C17: replay alters more than bit 3");
+    // strict: SUBSCRIBE / UNSUBSCRIBE have fixed flags 0010 (MQTT 5, 2.1.3); any other value is malformed
+    let legal = match b >> 4 {
+        3 => true,
+        _ => b & 0x0F == 0x02,
+    };
+    assert!(legal, "KF:F7/replay-dup-on-subscribe C01: a replayed SUBSCRIBE/UNSUBSCRIBE is sent with reserved flag bit 3 set (0x8A / 0xAA)");
+}
+
+// ---------------------------------------------------------------------------------------------
+// C12: CONNECT has to fit behind the retained data
+// ---------------------------------------------------------------------------------------------
+// @harness props=C12,C17 tier=quick layer=L2
+// @harness funcs="Outbound::scratch_space, compact, MqttSerializer::encode(Connect) into the scratch tail"
+// @harness sym="amount of retained data 0..=32 bytes, arena bytes, clean start" bounds="32-byte arena, CONNECT of 19 bytes (needs 22 bytes of scratch: 5 header reserve + 17 body)"
+// @harness assumes="KNOWN FINDING F11 tagged"
+#[kani::proof]
+#[kani::unwind(8)]
+fn c12_connect_fits_behind_retained() {
+    use crate::packets::Connect;
+    use crate::wire::Utf8String;
+    let mut tx: [u8; 32] = kani::any();
+    let orig = tx;
+    let l: usize = kani::any();
+    kani::assume(l <= 32);
+    let mut ob = Outbound::new(&mut tx);
+    if l > 0 {
+        ob.retain_packet(7, 0, l).unwrap();
+    }
+    let props = [crate::Property::ReceiveMaximum(8)];
+    let r = {
+        let scratch = ob.scratch_space();
+        assert!(scratch.len() == 32 - l, "C17/K7: scratch is exactly the tail behind the retained data");
+        crate::ser::MqttSerializer::encode(
+            scratch,
+            &Connect { keepalive: 60, properties: Properties::from_slice(&props), client_id: Utf8String("c"), auth: None, will: None, clean_start: kani::any() },
+        )
+        .map(|b| b.len())
+    };
+    // retained bytes are untouched whether or not CONNECT fitted
+    if l > 0 {
+        assert!(ob.buf[0] == orig[0] && ob.buf[l - 1] == orig[l - 1], "C17/K7: encoding CONNECT altered retained data");
+    }
+    // 10 11 | 00 04 M Q T T 05 flags 00 3c | 03 21 00 08 | 00 01 c  => 2 + 17 bytes; the encoder
+    // reserves 5 bytes for the fixed header in front of the 17-byte body
+    let need = 5 + 17;
+    match r {
+        Ok(n) => assert!(n == 19 && 32 - l >= need, "C12: CONNECT encoded into too small a tail"),
+        Err(_) => {
+            // modulo F11: it only fails when the tail really is too small
+            assert!(32 - l < need, "C12: CONNECT refused although it fits behind the retained data");
+            assert!(false, "KF:F11/connect-needs-arena-tail C12: with the transmit arena (nearly) full of retained packets every connect() fails with BufferTooSmall - the session cannot be reconnected");
+        }
+    }
+    kani::cover!(r.is_ok() && l > 0);
 }
